@@ -213,7 +213,8 @@ def run_poll_minimums(c):
         cases.append(('date_months', '@2000-01-01 - %d months' % n, '@2000-01-01 - 1 month', [sx([Sym('polls-date-months'), n])], [sx([Sym('polls-date-months'), 1])]))
     cases.append(('date_years', '@2000-01-01 - 300 years', '@2000-01-01 - 1 year', [sx([Sym('polls-date-months'), 3600])], [sx([Sym('polls-date-months'), 12])]))
     for n in (6400, 64 * 1000, 129):
-        cases.append(('lshift_n', '(1 << %d) == 0' % n, '(1 << 64) == 0', [sx([Sym('polls-lshift'), n])], [sx([Sym('polls-lshift'), 64])]))
+        # baseline 1 << 1: a one-bit shift of a Small value polls nothing (1 << 64 would end with shifts of a Large value, which poll per limb)
+        cases.append(('lshift_n', '(1 << %d) == 0' % n, '(1 << 1) == 0', [sx([Sym('polls-lshift'), n])], [sx([Sym('polls-lshift'), 1])]))
     for f1, f2 in ((40, 40), (6, 6), (3, 50)):
         cases.append(('dist_bop', 'd%d + d%d' % (f1, f2), 'd1 + d1',
                       [sx([Sym('polls-die'), 1, f1]), sx([Sym('polls-die'), 1, f2]), sx([Sym('polls-bop'), f1, f2])],
